@@ -26,7 +26,7 @@ WORKERS = {"quick": 4, "thorough": 16}
 WTESTS = {"groups": ['parse'], "tests": ['tests/dec', 'tests/decay/test_viewer.py']}
 REQUIRED = {**{f"char:{c}": 10 for c in L.ALPHABET_EXTRA}, **{f"bf-literal:{f}": 3 for f in ["1", "1.", ".25", "-0.8", "2E-3", "20.e-2", "+0.125"]},
             **{f"param-literal:{f}": 3 for f in ["1", "1.", ".5", "-0.8", "+3", "20.e12", "2E-4"]},
-            "word-param-that-python-float-would-read": 10, "line-with-model-alias+photos": 5, "line-with-model-alias": 10, "label-continuing-a-model-name": 10, "file-constructor-two-files-first-without-final-newline": 10, "returned-values-edited-then-asked-again": 20, "models-all-published": 1, "empty-block": 10, "repeated-mother-different-body": 10, "repeated-mother-identical-body": 10,
+            "word-param-that-python-float-would-read": 10, "line-with-model-alias+photos": 5, "line-with-model-alias": 10, "label-continuing-a-model-name": 10, "copydecay-onto-a-name-with-its-own-block": 5, "file-constructor-two-files-first-without-final-newline": 10, "returned-values-edited-then-asked-again": 20, "models-all-published": 1, "empty-block": 10, "repeated-mother-different-body": 10, "repeated-mother-identical-body": 10,
             "tables>=4": 10, "tables>=8": 3, "line-without-daughters": 10, "photos-mixed-in-one-table": 10, "lines>=8": 3, "daughters>=5": 10,
             "defined-param": 10, "negated-defined-param": 5, "word-param": 10, "public-api-observation": 30, "corpus-file": 20, "second-parse-same-instance": 10, "file-constructor-same-path-rewritten": 10}
 ASSUMPTIONS = ["texts are in L_dec (DESIGN 2.1): labels are not numeric prefixes, reserved words or model-name + non-word suffix",
@@ -76,6 +76,14 @@ def gen_file(ctx):
         # CDecay statements (also one written twice) for mothers that have their own Decay block: the block is the table, once
         tgt = r.choice(blocks)["m"]
         misc += [{"k": "CDecay", "name": tgt}] * r.choice([1, 2])
+    if r.random() < 0.2:
+        # a conjugated table next to the written ones: the written tables stay first, in file order
+        from .. import names as _names  # noqa: PLC0415
+
+        src = r.choice(blocks)["m"]
+        c = _names.conj(src)
+        if not c.startswith("ChargeConj(") and c != src and all(b["m"] != c for b in blocks) and L.label_ok(c, g.models):
+            misc.append({"k": "CDecay", "name": c})
     late_defs = [g.misc("Define") for _ in range(r.choice([0, 0, 1]))]
     stmts = decgen.interleave(r, stmts + late_defs, blocks, misc)
     if r.random() < 0.2:
@@ -286,6 +294,25 @@ def run(ctx):
                 ctx.inconclusive.append("reference reader disagrees with the renderer on a generated text")
         except L.Unsupported as e:
             ctx.inconclusive.append(f"reference reader rejects a generated text: {e}")
+        if i % 6 == 5 and len(exp["order"]) >= 2:
+            # the idiom "copy the generic table, then write the signal table": CopyDecay X Y for an X that has its own Decay block.
+            # What the copy adds is not C01's subject; the table of every mother named in a Decay block still lists the lines of its (first) block.
+            x, y = ctx.rng.sample(exp["order"], 2)
+            text2 = L.render([*stmts[: len(stmts) // 2], {"k": "CopyDecay", "a": x, "b": y}, *[st for st in stmts[len(stmts) // 2:] if st["k"] != "End"]])
+            w2 = {"kind": "generated", "text": text2, "copy_onto_existing_block": [x, y]}
+            ctx.hit("copydecay-onto-a-name-with-its-own-block")
+            ctx.case(text2, True, "gen")
+            ok4, res4 = ctx.guard("parse", w2, snapshot.make_parser, text2)
+            if ok4:
+                for m in exp["order"]:
+                    ok5, rows = ctx.guard("tables:public-queries", w2, snapshot.table_of, res4[0], m)
+                    if not ok5:
+                        break
+                    got = [(r_["bf"], tuple(r_["fs"]), r_["model"], tuple(r_["params"])) for r_ in rows]
+                    want = [L.line_tuple(ln, with_photos=False) for ln in exp["tables"][m]]
+                    if L.typed(got) != L.typed(want):
+                        ctx.violate("tables:block-shadowed-by-a-copy", f"{m} (own Decay block, also target or source of CopyDecay {x} {y}): got {got!r} expected {want!r}", w2)
+                        break
         if i < 2:
             ctx.sample({"text": text, "expected_tables": {m: [list(map(str, L.line_tuple(x))) for x in v] for m, v in exp["tables"].items()}})
         if len(ctx.violations) >= ctx.max_violations:
